@@ -448,6 +448,19 @@ def ccm_worker(shards):
                     if seg != ks[:len(seg)]:
                         acc.violation("C11/CCM/wrong-keystream", "CCM nonce %d: keystream block %d wrong" % (nlen, i), case)
                         break
+        # one object, no msg_len: a refused over-long call must not disarm the limit for later calls
+        for first, second in ((lim + 2, lim + 1), (lim + 300, lim + 1), (2 * lim + 2, lim + 2)):
+            for meth in ("encrypt", "decrypt"):
+                acc.count("transitions", 2)
+                c = mk()
+                r1 = excname(getattr(c, meth), bytes(first))
+                r2 = excname(getattr(c, meth), bytes(second))
+                acc.seen("classes", ("ccm", nlen, "refused-then-again", meth, r1[0], r2[0]))
+                if r1[0] == "ok" or r2[0] == "ok":
+                    acc.violation("C11/CCM/limit-disarmed-after-refused-call",
+                                  "CCM nonce %d bytes (limit %d): %s(%d bytes) -> %s, then %s(%d bytes) on the same object -> %s"
+                                  % (nlen, lim, meth, first, r1[0] if r1[0] == "ok" else r1[1], meth, second,
+                                     "data returned" if r2[0] == "ok" else r2[1]), case)
         # declared + split across the limit
         acc.count("transitions", 3)
         c = mk(msg_len=lim)
